@@ -39,3 +39,16 @@ Print Assumptions c01_cert_total.
 Print Assumptions c01_plain_total.
 Print Assumptions c01_well_formed.
 Print Assumptions c01_status_range.
+
+(* non-vacuity: a three-lint certificate registry (one body panics, one warns, one is inapplicable) meets the
+   hypotheses and yields a complete set with flags (notices, warnings, errors, fatals) = (false, true, false, true) *)
+From ZL Require Import Framework.Script.
+Example c01_example :
+  let mk n app exe := mkScript (mkMeta (s2b n) [] [] (s2b "RFC5280") zeroT zeroT) NewOk CfgNone app exe in
+  let ss := [mk "e_a" AppTrue (ExePanic (s2b "boom")); mk "w_b" AppTrue (ExeRes Warn []); mk "n_c" AppFalse (ExeRes Pass [])] in
+  match slint_all KCert ss (mkObj true true true 0 0 0) with
+  | Ret rs => map fst (rs_results rs) = [s2b "e_a"; s2b "w_b"; s2b "n_c"] /\
+              (rs_notices rs, rs_warnings rs, rs_errors rs, rs_fatals rs) = (false, true, false, true) /\ rs_version rs = 3
+  | Panic _ => False
+  end.
+Proof. vm_compute. repeat split. Qed.
